@@ -428,6 +428,7 @@ def c07_shards(tier, seed):
         out.append({'family': 'c07', 'shape': 'named', 'hint': 'Tuple', 'variant': 'ghost'})
     out.append({'family': 'c07', 'shape': 'named', 'hint': 'Unspecified', 'variant': 'parent'})
     out.append({'family': 'c07', 'shape': 'named', 'hint': 'Struct', 'variant': 'parent'})
+    out.append({'family': 'c07', 'shape': 'named', 'hint': 'Unspecified', 'variant': 'bareparent'})
     return out
 
 
@@ -439,6 +440,10 @@ def make_c07(sh):
         traits = [TraitInstr('map', 'X', hint=hint, tag='t1'), TraitInstr('try_map', 'X', hint=hint, err='Er', tag='t2'),
                   TraitInstr('into_existing', 'X', hint=hint, tag='t3'), TraitInstr('try_into_existing', 'X', hint=hint, err='Er', tag='t4')]
         ren = ('n', 'zz') if (hint == 'Struct' or (hint == 'Unspecified' and shape == 'named')) else ('i', 0)
+        if variant == 'bareparent':
+            # bare #[parent]: produced by (try_)into() from the whole counterpart, poured with (try_)into_existing into it
+            return Spec('struct', shape=shape, traits=traits, members=[Member(nm('b'), instrs=[MapInstr(Ch('m1n', ['map', 'into', 'owned_into']), member=Ch('m1m', [None, ('n', 'yy')]), tag='e1')]),
+                                                                       Member(nm('par'), ty='ParT', instrs=[ParentInstr()])])
         if variant == 'parent':
             # parameterised parent whose child fields carry separate owned / by-ref instructions
             p = ParentInstr(fields=[PField(('n', 'pa'), attrs=[(Ch('pa1', ['owned_into', 'map_owned', 'into']).dom[0] if False else 'owned_into', ('n', 'qa'), '__o(~)'), ('ref_into', ('n', 'qb'), '__r(~)'), ('from', ('n', 'qc'), None)], tag='pa'),
